@@ -2,12 +2,16 @@ import PMV.Generated.Pipeline
 import PMV.Generated.Names
 import PMV.Model.Pipeline
 import PMV.Proofs.Rename
+import PMV.Proofs.Freeze
 /-
   C09 — Dynamic name access freezes every name in the module.
   Proved: (G) the generated top-level shape of `minify()` equals the modelled one, in which literal
   hoisting and exception-bracket removal are gated on `not module.tainted` and the taint block clears
   both renaming flags; (T) when no binding may be renamed the assigner renames nothing and introduces
-  no name.  Taint *detection* (which programs set `module.tainted`) is decided by the oracle only.
+  no name; (F) with the renaming flags cleared, the traversal `allow_rename_locals` / `allow_rename_globals` freezes every binding
+  of every namespace, at any depth and whatever kind of node it hangs on (model `PMV.Freeze`, compared with the real functions on
+  the namespace trees of the generated programs on every run) — the premise of (T).
+  Taint *detection* (which programs set `module.tainted`) is decided by the oracle only.
 -/
 namespace PMV.C09
 open PMV.Rename
@@ -34,5 +38,26 @@ theorem all_pinned_nothing_renamed (pg : Bool) (moduleNs : Ns) (rg : List String
   exact ⟨this.2, this.1⟩
 
 example : Pipeline.taintGated [("hoist_literals", "rename_literals")] = false := by decide
+
+/-- T09.3a: with local renaming off — what the taint block sets — `allow_rename_locals` freezes every binding of every namespace
+    other than the module: at any depth, and whatever the node is (function, lambda, class, comprehension). -/
+theorem taint_freezes_every_local (pl : List String) (n : Freeze.Node) (b : Nat × Option String) (h : Freeze.LocalBinding n b) :
+    b.1 ∈ Freeze.freezeLocals false pl n :=
+  (Freeze.freezeLocals_spec false pl n b.1).mpr ⟨b, h, rfl, by simp [Freeze.frozenLocal]⟩
+
+/-- T09.3b: with global renaming off `allow_rename_globals` freezes every binding of the module. -/
+theorem taint_freezes_every_global (pg ex : List String) (od : List Nat) (bs : List (Nat × Option String)) (b : Nat × Option String)
+    (h : b ∈ bs) : b.1 ∈ Freeze.freezeGlobals false pg ex od bs :=
+  (Freeze.freezeGlobals_spec false pg ex od bs b.1).mpr ⟨b, h, rfl, Or.inl rfl⟩
+
+-- Non-vacuity: module → (not a namespace: an assignment) → lambda with `*args` (binding 2); module → function (binding 1) →
+-- class (binding 3); the module's own binding 0 is not a local.  Everything but 0 is frozen.
+example :
+    let lam : Freeze.Node := .mk true false [(2, some "args")] []
+    let cls : Freeze.Node := .mk true false [(3, some "attribute")] []
+    let fn : Freeze.Node := .mk true false [(1, some "value")] [cls]
+    let tree : Freeze.Node := .mk true true [(0, some "module_name")] [.mk false false [] [lam], fn]
+    Freeze.freezeLocals false [] tree = [2, 1, 3] ∧ Freeze.freezeLocals true ["args"] tree = [2]
+    ∧ Freeze.freezeGlobals false [] [] [] [(0, some "module_name")] = [0] := by decide
 
 end PMV.C09
